@@ -209,13 +209,65 @@ fn vp_recompute_fee_rates(block: &CachedBlock, unstable_blocks: &UnstableBlocks)
 //@|     fees@ == take_rates(recent_rates(chain, unstable_blocks, bi), number_of_transactions as int),
 //@end
 
-uninterp spec fn percentiles_spec(values: Seq<u64>) -> Seq<u64>;
-// [trusted:assumed-contract] percentiles (sort_unstable + closure map/collect; its rank arithmetic is verified as slices above):
-// a function of its argument
+// [trusted:assumed-spec] <[u64]>::sort_unstable: the ascending permutation of the slice
+pub uninterp spec fn sorted_of<T>(s: Seq<T>) -> Seq<T>;
+pub assume_specification<T: Ord>[<[T]>::sort_unstable](v: &mut [T])
+    ensures final(v)@ == sorted_of(old(v)@),
+;
+spec fn sorted_u64(s: Seq<u64>) -> Seq<u64> { sorted_of(s) }
 #[verifier::external_body]
-fn percentiles(values: Vec<u64>) -> (r: Vec<u64>)
-    ensures r@ == percentiles_spec(values@), values@.len() == 0 ==> r@.len() == 0,
-{ unimplemented!() }
+proof fn axiom_sorted_u64(s: Seq<u64>)
+    ensures
+        sorted_u64(s).len() == s.len(),
+        sorted_u64(s).to_multiset() == s.to_multiset(),
+        forall|i: int, j: int| 0 <= i <= j < s.len() ==> sorted_u64(s)[i] <= sorted_u64(s)[j],
+{}
+// C15, from the statement: nothing for no values; otherwise exactly 101 values, the p-th being the nearest-rank percentile p of
+// the sorted values (index 0 = minimum, 100 = maximum)
+spec fn percentiles_spec(values: Seq<u64>) -> Seq<u64> {
+    if values.len() == 0 { Seq::empty() }
+    else { Seq::new(101, |p: int| sorted_u64(values)[nearest_rank_index(p, values.len() as int)]) }
+}
+//@lemma fn=lemma_percentiles_non_decreasing props=C15
+proof fn lemma_percentiles_non_decreasing(values: Seq<u64>)
+    requires 1 <= values.len() <= 0x200_0000,
+    ensures
+        percentiles_spec(values).len() == 101,
+        forall|p: int, q: int| 0 <= p <= q <= 100 ==> percentiles_spec(values)[p] <= percentiles_spec(values)[q],
+{
+    axiom_sorted_u64(values);
+    assert forall|p: int, q: int| 0 <= p <= q <= 100 implies percentiles_spec(values)[p] <= percentiles_spec(values)[q] by {
+        lemma_rank_bounds(p, values.len() as int);
+        lemma_rank_bounds(q, values.len() as int);
+        lemma_rank_monotone(p, q, values.len() as int);
+    }
+}
+// percentiles (fee_percentiles.rs:160) as a whole. R18: the closure `ceil_div` is the verified slice percentiles_ceil_div;
+// `(0..N).map(|p| { e }).collect()` => a loop pushing `e` for p in 0..N
+//@extract file=canister/src/api/fee_percentiles.rs item="fn percentiles" props=C15
+//@ ret r
+//@ rewrite R18 "let ceil_div = \|a, b\| (.*?);\n" => ""
+//@ rewrite R18 "ceil_div\(" => "percentiles_ceil_div("
+//@ rewrite R18 "\(0\.\.MAX_PERCENTILE \+ 1\)\s*\.map\(\|p\| \{(.*?)\n        \}\)\s*\.collect\(\)" => "{ let mut vp_out: Vec<u64> = Vec::new();\n    for p in 0..MAX_PERCENTILE + 1 {\n        let vp_v = {\1\n        };\n        vp_out.push(vp_v);\n    }\n    vp_out }"
+//@ spec
+//@| requires
+//@|     // [assumption, stated] at most 2^25 fee rates (the repo keeps 10,000)
+//@|     values@.len() <= 0x200_0000,
+//@| ensures r@ =~= percentiles_spec(values@),
+//@ loop 1 binder=itp
+//@| invariant
+//@|     MAX_PERCENTILE == 100,
+//@|     1 <= values@.len() <= 0x200_0000,
+//@|     values@ == sorted_u64(vp_in),
+//@|     vp_in.len() == values@.len(),
+//@|     vp_out@.len() == itp.index@,
+//@|     forall|k: int| 0 <= k < itp.index@ ==> vp_out@[k] == sorted_u64(vp_in)[nearest_rank_index(k, vp_in.len() as int)],
+//@ before "values.sort_unstable();"
+//@| let ghost vp_in = values@;
+//@| proof { axiom_sorted_u64(vp_in); }
+//@ before "let ordinal_rank ="
+//@| proof { lemma_rank_bounds(p as int, values@.len() as int); }
+//@end
 // [trusted:assumed-spec] Vec<u64>::clone
 impl Clone for FeePercentilesCache {
     #[verifier::external_body]
@@ -225,7 +277,10 @@ impl Clone for FeePercentilesCache {
 //@extract file=canister/src/api/fee_percentiles.rs item="fn get_current_fee_percentiles_with_number_of_transactions" props=C15,C02
 //@ ret r
 //@ spec
-//@| requires old(state).unstable_blocks.tree.wf(),
+//@| requires
+//@|     old(state).unstable_blocks.tree.wf(),
+//@|     // [assumption, stated] at most 2^25 fee rates are requested (the repo asks for 10,000)
+//@|     number_of_transactions <= 0x200_0000,
 //@| ensures
 //@|     ({ let tip = old(state).unstable_blocks.tree.best_path().last().block_hash;
 //@|        let fresh = fees_per_byte_spec(old(state).unstable_blocks.tree.best_path(), &old(state).unstable_blocks, number_of_transactions);
@@ -239,6 +294,8 @@ impl Clone for FeePercentilesCache {
 //@|                 && (final(state).fee_percentiles_cache matches Some(n) && n.tip_block_hash == tip && n.fee_percentiles@ == r@),
 //@|        } }),
 //@|     final(state).unstable_blocks == old(state).unstable_blocks && final(state).utxos == old(state).utxos,
+//@ before "let fee_percentiles = percentiles(fees_per_byte);"
+//@| proof { assert(fees_per_byte@.len() <= number_of_transactions); }
 //@ before "let tip_block_hash = main_chain.tip().block_hash();"
 //@| proof { state.unstable_blocks.tree.lemma_best_key_pos(); state.unstable_blocks.tree.lemma_best_path_len(); }
 //@end
